@@ -63,6 +63,7 @@ class EvalCall:
     perturbations: NDArray[np.intc] | None
     active_objectives: NDArray[np.bool_] | None
     active_constraints: NDArray[np.bool_] | None
+    active: NDArray[np.bool_] | None = None
     objectives: NDArray[np.float64] | None = None
     constraints: NDArray[np.float64] | None = None
 
@@ -123,6 +124,7 @@ class TableEvaluator:
             perturbations=None if context.perturbations is None else np.array(context.perturbations, copy=True),
             active_objectives=None if context.active_objectives is None else np.array(context.active_objectives, copy=True),
             active_constraints=None if context.active_constraints is None else np.array(context.active_constraints, copy=True),
+            active=None if getattr(context, "active", None) is None else np.array(context.active, copy=True),
         )
         self.calls.append(call)
         key = None
@@ -152,6 +154,11 @@ class TableEvaluator:
             if constraints is not None:
                 constraints[row, :] = values[self.n_obj :]
             if self.garbage is not None:
+                # an evaluator may use the per-realization short-cut flag and skip the whole row
+                if getattr(context, "active", None) is not None and not context.active[realization]:
+                    objectives[row, :] = self.garbage
+                    if constraints is not None:
+                        constraints[row, :] = self.garbage
                 if context.active_objectives is not None:
                     for j in range(self.n_obj):
                         if not context.active_objectives[j, realization]:
